@@ -27,6 +27,13 @@ def iqStep (s : St) : List String → St × String
       | some kd => let r := step s (.libReq kd); (r.1, ",".intercalate (r.2.map showIqOut))
       | none => (s, "bad-op")
     | none => (s, "bad-op")
+  | ["rereq", id, k, a, b] =>
+    match id.toNat?, k.toNat? with
+    | some id, some k =>
+      match Yow.Gen.iqKinds[k]? with
+      | some kd => let r := step s (.reReq id kd (a == "1") (b == "1")); (r.1, ",".intercalate (r.2.map showIqOut))
+      | none => (s, "bad-op")
+    | _, _ => (s, "bad-op")
   | ["deliver", id, res] =>
     match id.toNat? with
     | some id => let r := step s (.deliver id (res == "1")); (r.1, ",".intercalate (r.2.map showIqOut))
